@@ -237,7 +237,16 @@ func runC20(rt *rapid.T) {
 	fireOne := func(kind string) error {
 		k := tok
 		tok++
-		body := secs2.A(fmt.Sprintf("f%d", k))
+		// header-only data messages and empty lists are data frames like any other
+		var body secs2.Item
+		switch k % 4 {
+		case 0:
+			body = secs2.NewEmptyItem()
+		case 1:
+			body = secs2.L()
+		default:
+			body = secs2.A(fmt.Sprintf("f%d", k))
+		}
 		ctx, cancel := ctxT(time.Second)
 		defer cancel()
 		var err error
